@@ -261,7 +261,8 @@ __CPROVER_requires((g_n == 1 ==> (g_sendq.head == g_txq.head->aio || g_sendq.hea
 #endif
 #endif
 #if WCB_CASE >= 2
-__CPROVER_requires(WCF->op != WS_CLOSE && (WCF->asize == 0 || __CPROVER_is_fresh(WCF->adata, WCF->asize)) && WSR_TXQ_HEAD_PRE)
+/* (heap payload block of the frame in flight: none or WCB_BLK bytes -- constant object size, bound of these units) */
+__CPROVER_requires(WCF->op != WS_CLOSE && (WCF->asize == 0 || (WCF->asize == WCB_BLK && __CPROVER_is_fresh(WCF->adata, WCB_BLK))) && WSR_TXQ_HEAD_PRE)
 #endif
 #if WCB_CASE == 2
 __CPROVER_requires(WC->txaio.a_result != 0 && (WCA == NULL || (__CPROVER_is_fresh(WCA, sizeof(nni_aio)) && VP_AIO_ON(WCA, &WC->sendq) && g_sendq.n >= 1 && WSF_Q_OK(g_sendq) && (g_sendq.n >= 2 || g_sendq.head == WCA))))
@@ -277,7 +278,8 @@ __CPROVER_requires(WCF->final && (WCA->a_msg == NULL || (__CPROVER_is_fresh(WCA-
 #if WCB_CASE == 4
 /* a non-final fragment is a full fragment (ws_frame_prep_tx), message mode; g_u64 names what is left after it */
 __CPROVER_requires(!WCF->final && !WC->isstream && WC->fragsize > 0 && WCF->len == WC->fragsize && WCF->asize >= WCF->len && __CPROVER_pointer_in_range_dfcc(WCF->adata, WCF->buf, WCF->adata))
-__CPROVER_requires(g_u64 == PT_TOTAL(WCA) - WCF->len && g_txq.n <= 1)
+/* (something IS left: a frame is non-final only when the data exceeds the fragment size) */
+__CPROVER_requires(g_u64 == PT_TOTAL(WCA) - WCF->len && WCF->len < PT_TOTAL(WCA) && g_txq.n <= 1)
 #endif
 #if WCB_CASE == 5
 __CPROVER_requires(WC->txaio.a_result == 0 && WCA == NULL && WCF->final)
@@ -378,12 +380,12 @@ __CPROVER_ensures(g_wr_calls == OLD(g_wr_calls) + 1 && g_hclose_calls == OLD(g_h
  * were handed over; a partially read frame keeps exactly its unread tail.
  * Units: WSR_N = 1, 2 queued frames (constant), short frames (payload inside
  * the frame object, possibly partially read already), ONE waiting reader with
- * a vector of at most 2 non-empty entries (buffers of RFS_CAP bytes). */
+ * a vector of at most 2 entries, empty ones included (buffers of RFS_CAP bytes). */
 #define RFS_CAP 200
 #define RFS_A (g_recvq.head)
 #define RFS_OA OLD(g_recvq.head)
 #define RFS_V(i) ((i) < RFS_A->a_nio ? RFS_A->a_iov[i].iov_len : (size_t) 0)
-#define RFS_ENT_PRE(i) ((i) >= RFS_A->a_nio || (RFS_A->a_iov[i].iov_len > 0 && RFS_A->a_iov[i].iov_len <= RFS_CAP && __CPROVER_is_fresh(RFS_A->a_iov[i].iov_buf, RFS_CAP)))
+#define RFS_ENT_PRE(i) ((i) >= RFS_A->a_nio || (RFS_A->a_iov[i].iov_len <= RFS_CAP && __CPROVER_is_fresh(RFS_A->a_iov[i].iov_buf, RFS_CAP)))
 /* a queued short frame, possibly partially read: the unread bytes are buf[0..len) inside sdata */
 #define RFS_ITEM_ON(i) (__CPROVER_is_fresh(IT(i), sizeof(ws_frame)) && IT(i)->len <= 125 && IT(i)->asize == 0 && IT(i)->adata == NULL && __CPROVER_pointer_in_range_dfcc(&IT(i)->sdata[0], IT(i)->buf, &IT(i)->sdata[0] + (125 - IT(i)->len)))
 /* concatenation index of (entry g_j, offset g_k) of the reader's vector */
@@ -394,6 +396,10 @@ __CPROVER_ensures(g_wr_calls == OLD(g_wr_calls) + 1 && g_hclose_calls == OLD(g_h
 static void ws_read_finish_str(nni_ws *ws)
 __CPROVER_requires(__CPROVER_is_fresh(ws, sizeof(*ws)) && WSR_LISTS_PRE(ws) && WSR_LOCKED(ws))
 __CPROVER_requires(g_recvq.n == 1 && __CPROVER_is_fresh(RFS_A, sizeof(nni_aio)) && VP_AIO_ON(RFS_A, &ws->recvq) && WSF_Q_OK(g_recvq))
+#ifdef RFS_NIO
+/* (unit with a constant number of vector entries) */
+__CPROVER_requires(RFS_A->a_nio == RFS_NIO)
+#endif
 __CPROVER_requires(RFS_A->a_nio <= 2 && RFS_ENT_PRE(0) && RFS_ENT_PRE(1) && RFS_A->a_count <= (SIZE_MAX >> 4))
 __CPROVER_requires(g_rxq.n == WSR_N)
 #if WSR_N >= 1
@@ -479,18 +485,25 @@ __CPROVER_ensures((CL_SENT && OLD(ws->txframe) != NULL) ==> (__CPROVER_is_fresh(
 /* ---- cancellation of a send (C02) ------------------------------------------ */
 #define WX ((nni_ws *) arg)
 #define WX_F ((ws_frame *) aio->a_prov_data)
-#define WX_ACTIVE (OLD(aio->a_prov_node.ln_next) != NULL)
+#ifndef WXC_CASE
+#define WXC_CASE 1 /* 0: the send has completed already (not on sendq), 1: still waiting */
+#endif
+#define WX_ACTIVE (WXC_CASE == 1)
 #define WX_INFLIGHT (WX_ACTIVE && OLD(aio->a_prov_data) == (void *) WX->txframe)
 #define WX_QUEUED (WX_ACTIVE && OLD(aio->a_prov_data) != (void *) WX->txframe)
 static void ws_write_cancel(nni_aio *aio, void *arg, nng_err rv)
 __CPROVER_requires(__CPROVER_is_fresh(arg, sizeof(nni_ws)) && __CPROVER_is_fresh(aio, sizeof(nni_aio)) && WSR_LISTS_PRE(WX) && WSR_NOLOCK_PRE && WSR_TXQ_WF)
 __CPROVER_requires(WSF_Q_OK(g_sendq) && WSR_MEMBER_PRE(aio, g_sendq, &WX->sendq) && (g_sendq.n < 2 || aio != g_sendq.next || aio != g_sendq.head))
+#if WXC_CASE == 0
+__CPROVER_requires(VP_AIO_TAG(aio) == NULL)
+__CPROVER_assigns(VP_SYNC_GHOSTS)
+#else
 /* a waiting send owns a frame (prov data) that is in flight or queued in txq */
-__CPROVER_requires(VP_AIO_TAG(aio) == NULL || (__CPROVER_is_fresh(aio->a_prov_data, sizeof(ws_frame)) && WX_F->aio == aio && (WX_F->asize == 0 || (WX_F->asize == WCB_BLK && __CPROVER_is_fresh(WX_F->adata, WCB_BLK)))))
-__CPROVER_requires(VP_AIO_TAG(aio) == NULL || WX->txframe == (ws_frame *) aio->a_prov_data || (g_txq.n >= 1 && (g_txq.head == (ws_frame *) aio->a_prov_data || g_txq.n >= 2)))
-__CPROVER_assigns(VP_SYNC_GHOSTS, g_sendq, WSF_FIN_GHOSTS, g_f1.first_aio, g_f1.first_rv, g_f1.first_count, g_rs.abort_calls, g_rs.abort_aio, g_rs.abort_rv, g_tx.txq, g_free_calls, aio->a_prov_node;
-	aio->a_prov_node.ln_next != NULL: __CPROVER_object_whole(aio->a_prov_data))
-__CPROVER_frees(aio->a_prov_node.ln_next != NULL: aio->a_prov_data; aio->a_prov_node.ln_next != NULL && ((ws_frame *) aio->a_prov_data)->asize != 0: ((ws_frame *) aio->a_prov_data)->adata)
+__CPROVER_requires(VP_AIO_TAG(aio) != NULL && __CPROVER_is_fresh(aio->a_prov_data, sizeof(ws_frame)) && WX_F->aio == aio && (WX_F->asize == 0 || (WX_F->asize == WCB_BLK && __CPROVER_is_fresh(WX_F->adata, WCB_BLK))))
+__CPROVER_requires(WX->txframe == (ws_frame *) aio->a_prov_data || (g_txq.n >= 1 && (g_txq.head == (ws_frame *) aio->a_prov_data || (g_txq.n >= 2 && (g_txq.next == (ws_frame *) aio->a_prov_data || g_txq.next == NULL || g_txq.n >= 3)))))
+__CPROVER_assigns(VP_SYNC_GHOSTS, g_sendq, WSF_FIN_GHOSTS, g_f1.first_aio, g_f1.first_rv, g_f1.first_count, g_rs.abort_calls, g_rs.abort_aio, g_rs.abort_rv, g_tx.txq, g_free_calls, aio->a_prov_node, __CPROVER_object_whole(aio->a_prov_data))
+__CPROVER_frees(aio->a_prov_data; ((ws_frame *) aio->a_prov_data)->asize != 0: ((ws_frame *) aio->a_prov_data)->adata)
+#endif
 __CPROVER_ensures(VP_NO_LOCK_HELD)
 /* already completed: nothing is reported, nothing changes */
 __CPROVER_ensures(!WX_ACTIVE ==> (g_fin_calls == OLD(g_fin_calls) && g_abort_calls == OLD(g_abort_calls) && g_sendq.n == OLD(g_sendq.n) && WSF_TXQ_SAME && g_free_calls == OLD(g_free_calls)))
@@ -498,7 +511,9 @@ __CPROVER_ensures(!WX_ACTIVE ==> (g_fin_calls == OLD(g_fin_calls) && g_abort_cal
 __CPROVER_ensures(WX_INFLIGHT ==> (g_abort_calls == OLD(g_abort_calls) + 1 && g_abort_aio == &WX->txaio && g_abort_rv == (int) rv && g_fin_calls == OLD(g_fin_calls) && g_sendq.n == OLD(g_sendq.n) && VP_AIO_ON(aio, &WX->sendq) && WSF_TXQ_SAME && g_free_calls == OLD(g_free_calls)))
 /* still queued: frame leaves txq and is released, the send leaves sendq and is completed exactly once with the cancel code */
 __CPROVER_ensures(WX_QUEUED ==> (g_fin_calls == OLD(g_fin_calls) + 1 && g_fin_last == aio && g_fin_last_rv == (int) rv && g_fin_last_count == 0 && g_sendq.n == OLD(g_sendq.n) - 1 && aio->a_prov_node.ln_next == NULL && g_abort_calls == OLD(g_abort_calls)))
+#if WXC_CASE == 1
 __CPROVER_ensures(WX_QUEUED ==> (g_txq.n == OLD(g_txq.n) - 1 && WSR_TXQ_WF && g_free_calls == OLD(g_free_calls) + 1 + (OLD(((ws_frame *) aio->a_prov_data)->asize) != 0 ? 1 : 0) && __CPROVER_was_freed(OLD(aio->a_prov_data))))
+#endif
 ;
 /* clang-format on */
 #endif
